@@ -8,7 +8,9 @@ Local Open Scope Z_scope.
 
 (** Observed limiter table: address, until (ns, harness time line), num. *)
 Definition ltable := list (bytes * (Z * N)).
-(** Observed session table: token id, user, expiry. *)
+(** Observed session table: key (an index into the case's dictionary of byte
+    strings: cookie strings for the map in memory, raw tokens for the bucket),
+    user, expiry. *)
 Definition stable := list (N * (bytes * N)).
 
 Inductive lim_op :=
@@ -24,17 +26,20 @@ Inductive lim_op :=
 Record login_step := { ls_kind : Z; ls_now : Z; ls_addr : bytes; ls_hdr : option bytes; ls_trusted : bool; ls_ok : bool;
                        ls_status : Z; ls_retry : Z; ls_nsess : N; ls_tab : ltable }.
 
+(** Arguments [raw] / [sp] are dictionary indices: [raw] of a token's bytes,
+    [sp] of a cookie string (any spelling). *)
 Inductive sess_op :=
-  | XNew (ttl now tok : N) (user : bytes)
-  | XCheck (ttl now tok : N) (obs : Z)    (* 0 OK, 1 not found, 2 expired, 3 not OK (seen through optionalAuth) *)
-  | XLogout (tok : N)
+  | XNew (ttl now raw : N) (user : bytes)
+  | XCheck (ttl now sp : N) (obs : Z)     (* 0 OK, 1 not found, 2 expired, 3 not OK (seen through optionalAuth) *)
+  | XLogout (ttl now sp : N) (obs : Z)    (* GET /control/logout through the real registration: 0 handleLogout ran, 3 refused *)
+  | XRemove (sp : N)                      (* removeSession / handleLogout called directly *)
   | XRestart (now : N)
-  | XSetExp (tok e : N).                  (* harness edit standing for the passage of time *)
+  | XSetExp (raw e : N).                  (* harness edit standing for the passage of time *)
 
 Inductive case :=
   | CLim (max : N) (ttl block : Z) (steps : list (lim_op * ltable))
   | CLogin (max : N) (ttl block : Z) (tol : Z) (steps : list login_step)
-  | CSess (steps : list (sess_op * (stable * stable))).
+  | CSess (dict : list bytes) (steps : list (sess_op * (stable * stable))).
 
 (** * Comparison of tables *)
 
@@ -46,10 +51,12 @@ Definition ltab_ok (tol : Z) (s : rl_state) (obs : ltable) : bool :=
     | None => false
     end) obs.
 
-Definition stab_ok (m : gmap N sess) (obs : stable) : bool :=
+Definition key (dict : list bytes) (i : N) : bytes := nth (N.to_nat i) dict [].
+
+Definition stab_ok (dict : list bytes) (m : gmap bytes sess) (obs : stable) : bool :=
   (Z.of_nat (length obs) =? Z.of_nat (size m)) &&
   forallb (fun '(k, (u, e)) =>
-    match m !! k with
+    match m !! key dict k with
     | Some s => eqb_bytes (s_user s) u && (s_expire s =? e)%N
     | None => false
     end) obs.
@@ -99,34 +106,39 @@ Fixpoint login_replay (c : rl_conf) (tol : Z) (s : rl_state) (ns : N) (i : Z) (l
         then login_replay c tol s' ns' (i + 1) l' else i
   end.
 
-Definition set_exp (tok e : N) (st : sstate) : sstate :=
-  let upd m := match m !! tok with
-               | Some s => <[tok := {| s_user := s_user s; s_expire := e |}]> m
-               | None => m
-               end in
-  {| ss_mem := upd (ss_mem st); ss_disk := upd (ss_disk st) |}.
+Definition set_exp (raw : bytes) (e : N) (st : sstate) : sstate :=
+  let upd (k : bytes) (m : gmap bytes sess) :=
+    match m !! k with
+    | Some s => <[k := {| s_user := s_user s; s_expire := e |}]> m
+    | None => m
+    end in
+  {| ss_mem := upd (hex_encode raw) (ss_mem st); ss_disk := upd raw (ss_disk st) |}.
 
 Definition cs_code (r : cs_result) : Z :=
   match r with CSOK => 0 | CSNotFound => 1 | CSExpired => 2 end.
 
-Definition sess_step (o : sess_op) (st : sstate) : sstate * bool :=
+Definition cs_obs_ok (r : cs_result) (obs : Z) : bool :=
+  if obs =? 3 then negb (cs_code r =? 0) else cs_code r =? obs.
+
+Definition sess_step (dict : list bytes) (o : sess_op) (st : sstate) : sstate * bool :=
   match o with
-  | XNew ttl now tok u => (new_session ttl now tok u st, true)
-  | XCheck ttl now tok obs =>
-      let '(st', r) := check_session ttl now tok st in
-      (st', if obs =? 3 then negb (cs_code r =? 0) else cs_code r =? obs)
-  | XLogout tok => (logout tok st, true)
+  | XNew ttl now raw u => (new_session ttl now (key dict raw) u st, true)
+  | XCheck ttl now sp obs =>
+      let '(st', r) := check_session ttl now (key dict sp) st in (st', cs_obs_ok r obs)
+  | XLogout ttl now sp obs =>
+      let '(st', r) := logout_request ttl now (key dict sp) st in (st', cs_obs_ok r obs)
+  | XRemove sp => (logout (key dict sp) st, true)
   | XRestart now => (restart now st, true)
-  | XSetExp tok e => (set_exp tok e st, true)
+  | XSetExp raw e => (set_exp (key dict raw) e st, true)
   end.
 
-Fixpoint sess_replay (st : sstate) (i : Z) (l : list (sess_op * (stable * stable))) : Z :=
+Fixpoint sess_replay (dict : list bytes) (st : sstate) (i : Z) (l : list (sess_op * (stable * stable))) : Z :=
   match l with
   | [] => 0
   | (o, (m, d)) :: l' =>
-      let '(st', ok) := sess_step o st in
-      if ok && stab_ok (ss_mem st') m && stab_ok (ss_disk st') d
-      then sess_replay st' (i + 1) l' else i
+      let '(st', ok) := sess_step dict o st in
+      if ok && stab_ok dict (ss_mem st') m && stab_ok dict (ss_disk st') d
+      then sess_replay dict st' (i + 1) l' else i
   end.
 
 Definition first_bad (c : case) : Z :=
@@ -135,7 +147,7 @@ Definition first_bad (c : case) : Z :=
       lim_replay {| rl_ttl := ttl; rl_block := block; rl_max := max |} ∅ 1 steps
   | CLogin max ttl block tol steps =>
       login_replay {| rl_ttl := ttl; rl_block := block; rl_max := max |} tol ∅ 0%N 1 steps
-  | CSess steps => sess_replay s_init 1 steps
+  | CSess dict steps => sess_replay dict s_init 1 steps
   end.
 
 Definition case_ok (c : case) : bool := first_bad c =? 0.
@@ -160,23 +172,23 @@ Fixpoint login_outs (c : rl_conf) (s : rl_state) (l : list login_step) : list (Z
         let '(s', o) := login c e s in (out_status o, out_retry o) :: login_outs c s' l'
   end.
 
-Fixpoint sess_state (st : sstate) (n : nat) (l : list (sess_op * (stable * stable))) : sstate :=
+Fixpoint sess_state (dict : list bytes) (st : sstate) (n : nat) (l : list (sess_op * (stable * stable))) : sstate :=
   match n, l with
-  | S n', (o, _) :: l' => sess_state (fst (sess_step o st)) n' l'
+  | S n', (o, _) :: l' => sess_state dict (fst (sess_step dict o st)) n' l'
   | _, _ => st
   end.
 
 Definition dump_l (s : rl_state) : ltable := map (fun '(k, r) => (k, (fa_until r, fa_num r))) (map_to_list s).
-Definition dump_s (m : gmap N sess) : stable := map (fun '(k, s) => (k, (s_user s, s_expire s))) (map_to_list m).
+Definition dump_s (m : gmap bytes sess) : list (bytes * (bytes * N)) := map (fun '(k, s) => (k, (s_user s, s_expire s))) (map_to_list m).
 
-Definition explain (c : case) : Z * (ltable * list (Z * Z) * (stable * stable)) :=
+Definition explain (c : case) : Z * (ltable * list (Z * Z) * (list (bytes * (bytes * N)) * list (bytes * (bytes * N)))) :=
   let i := first_bad c in
   match c with
   | CLim max ttl block steps =>
       (i, (dump_l (lim_state {| rl_ttl := ttl; rl_block := block; rl_max := max |} ∅ (Z.to_nat i) steps), [], ([], [])))
   | CLogin max ttl block tol steps =>
       (i, ([], login_outs {| rl_ttl := ttl; rl_block := block; rl_max := max |} ∅ steps, ([], [])))
-  | CSess steps =>
-      let st := sess_state s_init (Z.to_nat i) steps in
+  | CSess dict steps =>
+      let st := sess_state dict s_init (Z.to_nat i) steps in
       (i, ([], [], (dump_s (ss_mem st), dump_s (ss_disk st))))
   end.
